@@ -598,6 +598,8 @@ def evaluate(ctx: Ctx, scenarios: list[dict], results: list[dict], tie: bool = T
             ctx.count("barrier", "no deadline" if not shape["given"] else
                       ("slept:" + shape["slept"]) if shape["slept"] else "deadline set, no sleep (pending patch / not required / gone)")
             ctx.count("decision", "held back" if o["held"] else "change handlers entered" if o["entered"] is not None else "no changing cause")
+            if o["given"] is not None and o["held"] and st["event"]["now"] + st["event"]["dur"] >= o["given"]:
+                ctx.count("held_iteration", "held although the deadline has passed (patch non-empty at the barrier: no sleep, no timeout)")
             if impl.get("eos_wake"):
                 ctx.count("barrier_sleep", "interrupted by the exiting watcher (pressure + EOS): held back")
             if shape["reset"]:
@@ -608,7 +610,7 @@ def evaluate(ctx: Ctx, scenarios: list[dict], results: list[dict], tie: bool = T
                 ctx.count("patched", "~which~never~arrives")
             elif shape["patched"]:
                 e = st["event"]
-                ctx.count("patched", "no-op write: the returned version was dequeued already (awaited until the timeout)"
+                ctx.count("patched", "no-op write: the returned version is the one just processed or older (not armed since fix 460c956 when equal)"
                           if e["ver"] is not None and e["patched"][0] <= e["ver"][0] else "new version")
             mlow = dict((a, b) for a, b in o["low"])
             # when the low-level stages really started (observable only where such handlers are registered)
